@@ -519,7 +519,8 @@ def run(ctx):
     lap("simulated histories done")
     ctx.cov["simulated_histories"] = {"behaviours": len(traces), "max_length": max(len(t) for t in traces) // 2}
     # ---- binding self-test -------------------------------------------------------------------------------
-    ctx.cov["binding_selftest"] = _selftest(ctx, unis[0])
+    hom = next((u for u in unis if u.name == "hom"), None)
+    ctx.cov["binding_selftest"] = _selftest(ctx, hom) if hom else {"skipped (development run without the hom universe)": True}
     fresh = [v for v in ctx.violations if v.signature not in SIG.values()]
     if not all(ctx.cov["binding_selftest"].values()) and not fresh:      # (with fresh violations the untouched walk may fail too)
         raise core.MachineryError("binding self-test failed: %r" % ctx.cov["binding_selftest"])
